@@ -1,6 +1,7 @@
 package main
 
 import (
+	"go/constant"
 	"golang.org/x/tools/go/ssa"
 	"os"
 	"sync"
@@ -415,7 +416,7 @@ func (c *layoutCtx) subject(v *Val) (name string, idx int, ok bool) {
 }
 
 func intLayout(ev *Event) *FieldLayout {
-	return &FieldLayout{Kind: "int", Type: typeStr(ev.IntType), Order: ev.Order, GoField: -1, Pos: rootPos(ev), Ev: []*Event{ev}}
+	return &FieldLayout{Kind: "int", Type: wireTypeStr(ev.IntType), Order: ev.Order, GoField: -1, Pos: rootPos(ev), Ev: []*Event{ev}}
 }
 
 func irregular(ev *Event, note string) *FieldLayout {
@@ -433,7 +434,7 @@ func (c *layoutCtx) extractEnc(evs []*Event) []*FieldLayout {
 		switch ev.Kind {
 		case EvWriteInt:
 			if lx := lenArg(ev.Src); lx != nil {
-				f := &FieldLayout{Prefix: typeStr(ev.IntType), POrder: ev.Order, GoField: -1, Pos: rootPos(ev), Ev: []*Event{ev}}
+				f := &FieldLayout{Prefix: wireTypeStr(ev.IntType), POrder: ev.Order, GoField: -1, Pos: rootPos(ev), Ev: []*Event{ev}}
 				name, idx, ok := c.subject(textOf(lx))
 				f.Name, f.GoField = name, idx
 				if !ok {
@@ -1012,7 +1013,7 @@ func (c *layoutCtx) keyName(k *Val) string {
 	// decode: the key is the value just stored into a field
 	if c.path != nil {
 		for _, me := range c.path.Mem {
-			if me.V.Key() == k.Key() {
+			if me.V.Key() == k.Key() || (stripCT(me.V) != nil && stripCT(me.V).Key() == k.Key()) { // (a named key type: ApplID(val))
 				if idx, ok := recvFieldAddr(me.Addr); ok {
 					return c.fieldName(idx)
 				}
@@ -1101,6 +1102,11 @@ func valuePath(v *Val, id int, allowTrim bool, loops map[int]*Event) (ops []stri
 			// established by the conditions of the alternative this trim belongs to
 			if cs := stripCT(v.Args[1]); cs != nil && cs.Op == "conv" && len(cs.Args) == 1 && isStringOrBytes(cs.Type) {
 				b := stripCT(cs.Args[0])
+				// (string([]byte{b}) is the same one-byte cutset as string(rune(b)) for b < 0x80 – and like it not a
+				// one-byte cutset above: an invalid UTF-8 cutset strips every invalid byte)
+				if b.Op == "arraylit" && len(b.Args) == 1 && b.Args[0] != nil {
+					b = stripCT(b.Args[0])
+				}
 				for b.Op == "conv" && len(b.Args) == 1 && b.Type != nil && b.Args[0].Type != nil && isIntegerType(b.Type) && isIntegerType(b.Args[0].Type) && wideningInt(b.Args[0].Type, b.Type) {
 					b = stripCT(b.Args[0])
 				}
@@ -1175,9 +1181,10 @@ func cutsetByte(p *Val) string {
 		return "string(" + inner.Pretty() + ")"
 	}
 	if p.IsConst() && p.C != nil {
-		s := strings.Trim(p.C.ExactString(), "\"")
-		if len(s) == 1 {
-			return fmt.Sprintf("%d", s[0])
+		if p.C.Kind() == constant.String {
+			if s := constant.StringVal(p.C); len(s) == 1 && s[0] < 0x80 {
+				return fmt.Sprintf("%d", s[0])
+			}
 		}
 		return "cutset " + p.C.ExactString()
 	}
@@ -1311,8 +1318,8 @@ func (c *layoutCtx) extractDec(evs []*Event, sink func(wireIDs []int, loop int) 
 									if k == 1 {
 										ord = ""
 									}
-									f := &FieldLayout{Kind: "list", Prefix: typeStr(ev.IntType), POrder: ev.Order, Name: name, GoField: idx, Pos: rootPos(ev), Ev: []*Event{ev, nx}, WireIDs: []int{ev.ID, nx.ID},
-										Elem: &FieldLayout{Kind: "int", Type: typeStr(st.Elem()), Order: ord, GoField: -1}}
+									f := &FieldLayout{Kind: "list", Prefix: wireTypeStr(ev.IntType), POrder: ev.Order, Name: name, GoField: idx, Pos: rootPos(ev), Ev: []*Event{ev, nx}, WireIDs: []int{ev.ID, nx.ID},
+										Elem: &FieldLayout{Kind: "int", Type: wireTypeStr(st.Elem()), Order: ord, GoField: -1}}
 									out = append(out, f)
 									i++
 									continue
@@ -1322,7 +1329,7 @@ func (c *layoutCtx) extractDec(evs []*Event, sink func(wireIDs []int, loop int) 
 					}
 				}
 				if nx.Kind == EvReadBytes && !nx.Failed && affEq(nx.Size, wv) {
-					f := &FieldLayout{Kind: "ptext", Prefix: typeStr(ev.IntType), POrder: ev.Order, GoField: -1, Pos: rootPos(ev), Ev: []*Event{ev, nx}, WireIDs: []int{ev.ID, nx.ID}}
+					f := &FieldLayout{Kind: "ptext", Prefix: wireTypeStr(ev.IntType), POrder: ev.Order, GoField: -1, Pos: rootPos(ev), Ev: []*Event{ev, nx}, WireIDs: []int{ev.ID, nx.ID}}
 					name, idx, v, ok := sink([]int{nx.ID}, 0)
 					f.Name, f.GoField = name, idx
 					if !ok {
@@ -1343,7 +1350,7 @@ func (c *layoutCtx) extractDec(evs []*Event, sink func(wireIDs []int, loop int) 
 					continue
 				}
 				if nx.Kind == EvRep && affEq(nx.Count, wv) && !nx.Partial {
-					f := &FieldLayout{Kind: "list", Prefix: typeStr(ev.IntType), POrder: ev.Order, GoField: -1, Pos: rootPos(ev), Ev: []*Event{ev, nx}, WireIDs: []int{ev.ID}}
+					f := &FieldLayout{Kind: "list", Prefix: wireTypeStr(ev.IntType), POrder: ev.Order, GoField: -1, Pos: rootPos(ev), Ev: []*Event{ev, nx}, WireIDs: []int{ev.ID}}
 					name, idx, v, ok := sink(nil, nx.LoopID)
 					f.Name, f.GoField = name, idx
 					if !ok {
@@ -1379,7 +1386,7 @@ func (c *layoutCtx) extractDec(evs []*Event, sink func(wireIDs []int, loop int) 
 				// the count read is zero on this path and the list field is set to a fresh empty list: the zero-count
 				// case of the list (its element layout is whatever the paths that read elements say)
 				if zn, zi, okZ := c.zeroList(ev); okZ {
-					out = append(out, &FieldLayout{Kind: "list", Prefix: typeStr(ev.IntType), POrder: ev.Order, Name: zn, GoField: zi, Pos: rootPos(ev), Ev: []*Event{ev}, WireIDs: []int{ev.ID}, ZeroList: true})
+					out = append(out, &FieldLayout{Kind: "list", Prefix: wireTypeStr(ev.IntType), POrder: ev.Order, Name: zn, GoField: zi, Pos: rootPos(ev), Ev: []*Event{ev}, WireIDs: []int{ev.ID}, ZeroList: true})
 					continue
 				}
 			}
@@ -1432,7 +1439,7 @@ func (c *layoutCtx) extractDec(evs []*Event, sink func(wireIDs []int, loop int) 
 			if okN {
 				if name, idx, v, okS := sink([]int{ev.ID}, 0); okS {
 					if it, ord, okI := manualInt(v, ev.ID, n); okI {
-						f := &FieldLayout{Kind: "int", Type: typeStr(it), Order: ord, Name: name, GoField: idx, Pos: rootPos(ev), Ev: []*Event{ev}, WireIDs: []int{ev.ID}}
+						f := &FieldLayout{Kind: "int", Type: wireTypeStr(it), Order: ord, Name: name, GoField: idx, Pos: rootPos(ev), Ev: []*Event{ev}, WireIDs: []int{ev.ID}}
 						if n == 1 {
 							f.Order = ""
 						}
